@@ -87,7 +87,7 @@ Lemma step_buried st o :
   op_ok o -> entries_ok (awaiting st) -> emitted_buried st ->
   entries_ok (awaiting (step st o)) /\ emitted_buried (step st o).
 Proof.
-  intros Ho Ha He. destruct o as [b txs | b | f | id]; cbn [step op_ok] in *.
+  intros Ho Ha He. destruct o as [b txs | b | f | id | dep tag]; cbn [step op_ok] in *.
   - pose proof (add_txs_awaiting_ok st b txs Ho Ha) as Ha1.
     destruct (add_txs_fields st b txs) as (F1 & F2 & F3 & F4).
     destruct (best_h (add_txs st b txs) <? b_height b); apply block_confirmed_buried; cbn [awaiting emitted];
@@ -101,6 +101,13 @@ Proof.
   - destruct (find _ (awaiting st)) as [e0|]; [|split; assumption].
     split; [|exact He]. cbn [awaiting]. unfold entries_ok in *. apply Forall_forall. intros x Hin.
     apply filter_In in Hin as (Hin & _). rewrite Forall_forall in Ha. apply Ha. exact Hin.
+  - destruct (find (fun e => e_txid e =? dep) (awaiting st)) as [e0|].
+    + apply block_confirmed_buried; cbn [awaiting emitted]; [|exact He].
+      unfold entries_ok. apply Forall_app. split; [exact Ha|]. constructor; [cbn; lia | constructor].
+    + destruct (find (fun m => m_txid m =? dep) (emitted st)) as [m0|] eqn:Ef; [|split; assumption].
+      split; [exact Ha|]. unfold emitted_buried in *. cbn [emitted]. apply Forall_app. split; [exact He|].
+      constructor; [|constructor]. cbn [m_conf m_at]. apply find_some in Ef as (Hin & _).
+      rewrite Forall_forall in He. apply (He m0 Hin).
 Qed.
 
 (** For ANY operation list (admissible or not, reorgs included): whatever was concluded irreversibly
@@ -176,7 +183,7 @@ Qed.
 Lemma step_idempotent st o :
   match o with TC _ _ | BB _ => step (step st o) o = step st o | _ => True end.
 Proof.
-  destruct o as [b txs | b | f | id]; try exact I.
+  destruct o as [b txs | b | f | id | dep tag]; try exact I.
   - cbn [step]. set (st1 := add_txs st b txs).
     set (st2 := if best_h st1 <? b_height b then mkSt (b_height b) (b_hash b) (awaiting st1) (done_txids st1) (emitted st1) else st1).
     set (st3 := block_confirmed st2).
@@ -471,7 +478,7 @@ Lemma step_inv chain st D o :
              | _ => True
              end.
 Proof.
-  intros Hu Hok Hinv HD Hh. destruct o as [b txs | b | f | id]; cbn [lin_ok] in Hok; try contradiction.
+  intros Hu Hok Hinv HD Hh. destruct o as [b txs | b | f | id | dep tag]; cbn [lin_ok] in Hok; try contradiction.
   - destruct Hok as (Hb & Hsub). cbn [step].
     destruct (add_txs_mid chain b txs st D [] Hu Hb Hsub HD ltac:(intros p []) (inv_to_mid st D Hinv))
       as (Dn & _ & HDn & Hmid & Hcov & Hbk).
@@ -563,4 +570,190 @@ Proof.
   - intros e. rewrite A, A', Hb, Hsame. tauto.
   - intros id. rewrite B, B'. split; intros (e & H1 & H2 & H3); exists e; (split; [apply Hsame; exact H1 | split; [lia | exact H3]]).
   - intros id tag c. rewrite C, C'. split; intros (e & H1 & H2 & H3); exists e; (split; [apply Hsame; exact H1 | split; [lia | exact H3]]).
+Qed.
+
+(** * Late monitor updates ([AU]) *)
+
+(** all awaiting entries of one transaction sit at one height in one block: where that transaction
+    confirmed *)
+Definition coherent (l : list entry) : Prop :=
+  forall e1 e2, In e1 l -> In e2 l -> e_txid e1 = e_txid e2 -> e_height e1 = e_height e2 /\ e_hash e1 = e_hash e2.
+
+Lemma coherent_sub l l' : (forall e, In e l' -> In e l) -> coherent l -> coherent l'.
+Proof. intros Hs Hc e1 e2 H1 H2. apply Hc; apply Hs; assumption. Qed.
+
+Lemma add_txs_coherent b txs : forall st, coherent (awaiting st) -> coherent (awaiting (add_txs st b txs)).
+Proof.
+  induction txs as [|t r IH]; intros st Hc; cbn [add_txs]; [exact Hc|].
+  destruct (known_tx st (t_id t)) eqn:Ek; [apply IH; exact Hc|]. apply IH. cbn [awaiting].
+  assert (Hnone : forall e, In e (awaiting st) -> e_txid e <> t_id t).
+  { intros e He E. assert (known_tx st (t_id t) = true); [|congruence]. apply known_tx_spec. left. exists e. split; assumption. }
+  intros e1 e2 H1 H2 E. apply in_app_or in H1, H2. destruct H1 as [H1 | H1], H2 as [H2 | H2].
+  - apply Hc; assumption.
+  - destruct (entries_of_txid _ _ _ H2) as (T & _). exfalso. apply (Hnone e1 H1). congruence.
+  - destruct (entries_of_txid _ _ _ H1) as (T & _). exfalso. apply (Hnone e2 H2). congruence.
+  - destruct (entries_of_txid _ _ _ H1) as (_ & A1 & B1), (entries_of_txid _ _ _ H2) as (_ & A2 & B2). split; congruence.
+Qed.
+
+Lemma block_confirmed_coherent st : coherent (awaiting st) -> coherent (awaiting (block_confirmed st)).
+Proof. unfold block_confirmed. cbn [awaiting]. apply coherent_sub. intros e He. apply filter_In in He. tauto. Qed.
+
+(** Coherence is kept by EVERY operation, late updates included: this is what makes a reorganisation
+    retract an entry exactly when it retracts the transaction the entry depends on (the retractions of
+    [BD], [BB], [TU] filter on the height alone). *)
+Lemma step_coherent st o : coherent (awaiting st) -> coherent (awaiting (step st o)).
+Proof.
+  intros Hc. destruct o as [b txs | b | f | id | dep tag]; cbn [step].
+  - apply block_confirmed_coherent. pose proof (add_txs_coherent b txs st Hc) as H1.
+    destruct (best_h (add_txs st b txs) <? b_height b); [cbn [awaiting]|]; exact H1.
+  - destruct (best_h st <? b_height b); [apply block_confirmed_coherent; exact Hc|].
+    destruct (negb (b_hash b =? best_hash st)); [|exact Hc]. cbn [awaiting].
+    apply (coherent_sub (awaiting st)); [|exact Hc]. intros e He. apply filter_In in He. tauto.
+  - cbn [awaiting]. apply (coherent_sub (awaiting st)); [|exact Hc]. intros e He. apply filter_In in He. tauto.
+  - destruct (find _ (awaiting st)) as [e0|]; [|exact Hc]. cbn [awaiting].
+    apply (coherent_sub (awaiting st)); [|exact Hc]. intros e He. apply filter_In in He. tauto.
+  - destruct (find (fun e => e_txid e =? dep) (awaiting st)) as [e0|] eqn:Ef.
+    + apply block_confirmed_coherent. cbn [awaiting]. apply find_some in Ef as (Hin0 & Hid0). apply Z.eqb_eq in Hid0.
+      intros e1 e2 H1 H2 E. apply in_app_or in H1, H2.
+      destruct H1 as [H1 | [<- | []]], H2 as [H2 | [<- | []]]; cbn [e_txid e_height e_hash] in *.
+      * apply Hc; assumption.
+      * apply (Hc e1 e0 H1 Hin0). congruence.
+      * destruct (Hc e2 e0 H2 Hin0 ltac:(congruence)) as (A & B). split; congruence.
+      * split; reflexivity.
+    + destruct (find _ (emitted st)); exact Hc.
+Qed.
+
+Lemma run_coherent ops : forall st, coherent (awaiting st) -> coherent (awaiting (run st ops)).
+Proof. induction ops as [|o t IH]; intros st Hc; [exact Hc|]. cbn [run fold_left]. apply IH. apply step_coherent. exact Hc. Qed.
+
+(** A late update never makes a transaction appear at another height or in another block: every
+    (txid, height, block) it leaves in [get_relevant_txids] was there before. *)
+Lemma au_stamped_with_spend st dep tag x :
+  In x (relevant_txids (step st (AU dep tag))) -> In x (relevant_txids st).
+Proof.
+  unfold relevant_txids. cbn [step]. destruct (find (fun e => e_txid e =? dep) (awaiting st)) as [e0|] eqn:Ef.
+  - unfold block_confirmed. cbn [awaiting]. intros H. apply in_map_iff in H as (e & <- & He).
+    apply filter_In in He as (He & _). apply in_app_or in He as [He | [<- | []]].
+    + apply in_map_iff. exists e. split; [reflexivity | exact He].
+    + apply find_some in Ef as (Hin0 & Hid0). apply Z.eqb_eq in Hid0. cbn [e_txid e_height e_hash].
+      apply in_map_iff. exists e0. split; [rewrite Hid0; reflexivity | exact Hin0].
+  - destruct (find _ (emitted st)); intros H; exact H.
+Qed.
+
+(** ** forks with late updates in between *)
+
+Lemma find_filter_first (p q : entry -> bool) l e0 :
+  find p l = Some e0 -> q e0 = true -> find p (filter q l) = Some e0.
+Proof.
+  induction l as [|x t IH]; [discriminate|]. cbn [find filter]. destruct (p x) eqn:Ep.
+  - intros [= ->] Hq. rewrite Hq. cbn [find]. rewrite Ep. reflexivity.
+  - intros Hf Hq. destruct (q x); [cbn [find]; rewrite Ep|]; apply IH; assumption.
+Qed.
+
+Lemma find_none_filter (p q : entry -> bool) l : find p l = None -> find p (filter q l) = None.
+Proof.
+  induction l as [|x t IH]; [reflexivity|]. cbn [find filter]. destruct (p x) eqn:Ep; [discriminate|].
+  intros Hf. destruct (q x); [cbn [find]; rewrite Ep|]; apply IH; exact Hf.
+Qed.
+
+(** [block_confirmed] on two states related as in [fork_rel] *)
+Lemma fork_block_confirmed H top B hash a1 a2 dn em :
+  B <= top -> a2 = filter (fun e => e_height e <=? H) a1 ->
+  Forall (fun e => H < e_height e -> top < threshold e) a1 ->
+  fork_rel H top (block_confirmed (mkSt B hash a1 dn em)) (block_confirmed (mkSt B hash a2 dn em)).
+Proof.
+  intros HB E5 E6. unfold block_confirmed. cbn [best_h best_hash awaiting done_txids emitted].
+  assert (Himp : forall e, In e a1 -> (threshold e <=? B) = true -> (e_height e <=? H) = true).
+  { intros e Hin He. apply Z.leb_le in He. apply Z.leb_le. destruct (Z.leb_spec (e_height e) H); [assumption|].
+    rewrite Forall_forall in E6. specialize (E6 e Hin ltac:(lia)). lia. }
+  assert (Hreach : filter (fun e => threshold e <=? B) a1 = filter (fun e => threshold e <=? B) a2).
+  { rewrite E5. symmetry. apply filter_filter_impl_in. exact Himp. }
+  unfold fork_rel. cbn [best_h best_hash awaiting done_txids emitted]. rewrite Hreach. repeat split; try reflexivity.
+  - rewrite E5. apply filter_comm.
+  - apply Forall_forall. intros e Hin. apply filter_In in Hin as (Hin & _). rewrite Forall_forall in E6. apply E6. exact Hin.
+Qed.
+
+(** a late update about a transaction of the common chain (its entries, if any, are at or below the
+    fork point), applied while the fork is connected *)
+Lemma fork_step_au H top s1 s2 dep tag :
+  fork_rel H top s1 s2 -> best_h s1 <= top ->
+  (forall e, In e (awaiting s1) -> e_txid e = dep -> e_height e <= H) ->
+  fork_rel H top (step s1 (AU dep tag)) (step s2 (AU dep tag)).
+Proof.
+  intros (E1 & E2 & E3 & E4 & E5 & E6) HB Hdep. cbn [step].
+  destruct (find (fun e => e_txid e =? dep) (awaiting s1)) as [e0|] eqn:Ef.
+  - pose proof (find_some _ _ Ef) as (Hin0 & Hid0). apply Z.eqb_eq in Hid0.
+    assert (Hq : (e_height e0 <=? H) = true) by (apply Z.leb_le; apply Hdep; assumption).
+    rewrite E5, (find_filter_first _ (fun e => e_height e <=? H) _ _ Ef Hq), <- E1, <- E2, <- E3, <- E4.
+    apply fork_block_confirmed; [exact HB | |].
+    + rewrite filter_app. cbn [filter e_height]. rewrite Hq. reflexivity.
+    + apply Forall_app. split; [exact E6|]. constructor; [|constructor]. cbn [e_height]. apply Z.leb_le in Hq. lia.
+  - rewrite E5, (find_none_filter _ _ _ Ef), <- E4.
+    destruct (find (fun m => m_txid m =? dep) (emitted s1)) as [m0|].
+    + unfold fork_rel. cbn [best_h best_hash awaiting done_txids emitted]. rewrite <- E5. repeat split; assumption.
+    + unfold fork_rel. repeat split; assumption.
+Qed.
+
+(** fork segments interleaving blocks and late updates *)
+Inductive fop := FB (b : blk) | FU (dep tag : Z).
+Definition fop_full (f : fop) : op := match f with FB b => BC b | FU d t => AU d t end.
+Definition fop_empty (f : fop) : op := match f with FB b => BC (empty_blk b) | FU d t => AU d t end.
+
+Fixpoint fork_ops_ok (H h : Z) (s1 : state) (fs : list fop) : Prop :=
+  match fs with
+  | [] => True
+  | FB b :: r => b_height b = h + 1 /\ Forall tx_ok (b_txs b) /\ fork_ops_ok H (h + 1) (step s1 (BC b)) r
+  | FU d t :: r => (forall e, In e (awaiting s1) -> e_txid e = d -> e_height e <= H) /\ fork_ops_ok H h (step s1 (AU d t)) r
+  end.
+
+Fixpoint count_blocks (fs : list fop) : Z := match fs with [] => 0 | FB _ :: r => 1 + count_blocks r | FU _ _ :: r => count_blocks r end.
+
+Lemma count_blocks_nonneg fs : 0 <= count_blocks fs.
+Proof. induction fs as [|[b|d t] r IH]; cbn [count_blocks]; lia. Qed.
+
+Lemma au_best st d t : best_h (step st (AU d t)) = best_h st.
+Proof.
+  cbn [step]. destruct (find (fun e => e_txid e =? d) (awaiting st)); [unfold block_confirmed; reflexivity|].
+  destruct (find _ (emitted st)); reflexivity.
+Qed.
+
+Lemma fork_run_ops H top fs : forall s1 s2,
+  fork_rel H top s1 s2 -> fork_ops_ok H (best_h s1) s1 fs -> H <= best_h s1 ->
+  best_h s1 + count_blocks fs <= top -> top < H + ANTI_REORG_DELAY ->
+  fork_rel H top (run s1 (map fop_full fs)) (run s2 (map fop_empty fs)).
+Proof.
+  induction fs as [|[b|d t] r IH]; intros s1 s2 Hrel Hok HH Htop Hsh; [exact Hrel| |];
+    cbn [map run fold_left fop_full fop_empty]; cbn [fork_ops_ok count_blocks] in *.
+  - destruct Hok as (Hh & Htx & Hok). pose proof (count_blocks_nonneg r) as Hnn.
+    assert (Hstep : fork_rel H top (step s1 (BC b)) (step s2 (BC (empty_blk b)))) by (apply fork_step; try assumption; lia).
+    assert (Hb' : best_h (step s1 (BC b)) = b_height b).
+    { unfold BC. cbn [step]. destruct (add_txs_fields s1 b (b_txs b)) as (F1 & _). rewrite F1.
+      destruct (Z.ltb_spec (best_h s1) (b_height b)); [|lia]. unfold block_confirmed. reflexivity. }
+    apply (IH (step s1 (BC b)) (step s2 (BC (empty_blk b))) Hstep); [rewrite Hb', Hh; exact Hok | rewrite Hb'; lia | rewrite Hb'; lia | exact Hsh].
+  - destruct Hok as (Hdep & Hok). pose proof (count_blocks_nonneg r) as Hnn.
+    assert (Hstep : fork_rel H top (step s1 (AU d t)) (step s2 (AU d t))) by (apply fork_step_au; try assumption; lia).
+    apply (IH (step s1 (AU d t)) (step s2 (AU d t)) Hstep); [rewrite au_best; exact Hok | rewrite au_best; lia | rewrite au_best; lia | exact Hsh].
+Qed.
+
+(** The shallow-fork theorem with late updates applied while the fork is connected. *)
+Lemma shallow_reorg_retracts_with_updates st fs fp :
+  Forall (fun e => e_height e <= best_h st) (awaiting st) ->
+  fork_ops_ok (best_h st) (best_h st) st fs -> count_blocks fs < ANTI_REORG_DELAY ->
+  b_height fp = best_h st ->
+  step (run st (map fop_full fs)) (BD fp) = step (run st (map fop_empty fs)) (BD fp).
+Proof.
+  intros Hh Hok Hlen Hfp.
+  set (H := best_h st). set (top := H + count_blocks fs).
+  assert (Hrel0 : fork_rel H top st st).
+  { unfold fork_rel. repeat split; try reflexivity.
+    - assert (forall l, Forall (fun e => e_height e <= H) l -> filter (fun e => e_height e <=? H) l = l) as Hid.
+      { induction l as [|e t IH]; intros Hf; [reflexivity|]. inversion Hf; subst. cbn [filter].
+        destruct (Z.leb_spec (e_height e) H); [f_equal; apply IH; assumption | lia]. }
+      symmetry. apply Hid. exact Hh.
+    - apply Forall_forall. intros e Hin Hlt. rewrite Forall_forall in Hh. specialize (Hh e Hin). unfold H in Hlt. lia. }
+  pose proof (count_blocks_nonneg fs) as Hnn.
+  pose proof (fork_run_ops H top fs st st Hrel0 Hok ltac:(unfold H; lia) ltac:(unfold top, H; lia) ltac:(unfold top; lia))
+    as (E1 & E2 & E3 & E4 & E5 & E6).
+  cbn [step]. rewrite E3, E4, E5, Hfp. fold H. f_equal.
+  rewrite filter_filter_impl; [reflexivity | intros x Hx; exact Hx].
 Qed.
